@@ -62,23 +62,34 @@ func timeValue(w *Worker, ns *Term) Value {
 
 func timeNs(v Value) *Term { return v.(*StructV).F[1].(*Term) }
 
+// now models time.Now(): the first reading is an arbitrary instant in [0, 2^60); every later one
+// is the previous reading plus an arbitrary non-negative step of at most 2^50 ns (~13 days), so
+// that differences of instants normalise syntactically to sums of steps.
 func (w *Worker) now(s *State) *Term {
 	s.nclock++
-	t := w.input(s, "clock."+strconv.Itoa(s.nclock), bv(64))
-	// instants are non-decreasing and stay far from overflow
-	lo := w.tc.BV(64, 0)
-	if s.clock != nil {
-		lo = s.clock
-	}
-	c := w.tc.And(w.tc.Cmp("bvsle", lo, t), w.tc.Cmp("bvslt", t, w.tc.BV(64, 1<<61)))
-	if !c.IsTrue() {
+	tc := w.tc
+	if s.clock == nil {
+		t := w.input(s, "clock.0", bv(64))
+		c := tc.And(tc.Cmp("bvsle", tc.BV(64, 0), t), tc.Cmp("bvslt", t, tc.BV(64, 1<<60)))
 		if c.IsFalse() {
 			panic(pathDead{})
 		}
+		if !c.IsTrue() {
+			s.pc = s.pc.push(c)
+		}
+		s.clock = t
+		return t
+	}
+	d := w.input(s, "clock.step"+strconv.Itoa(s.nclock), bv(64))
+	c := tc.And(tc.Cmp("bvsle", tc.BV(64, 0), d), tc.Cmp("bvsle", d, tc.BV(64, 1<<50)))
+	if c.IsFalse() {
+		panic(pathDead{})
+	}
+	if !c.IsTrue() {
 		s.pc = s.pc.push(c)
 	}
-	s.clock = t
-	return t
+	s.clock = tc.Add(s.clock, d)
+	return s.clock
 }
 
 func sliceElems(v Value) []Value {
@@ -193,7 +204,12 @@ func init() {
 			n := w.concInt(a[1], "choice arity")
 			if w.cfg.concrete != nil {
 				if v, ok := w.cfg.concrete["choose."+name]; ok {
-					return w.tc.BV(64, uint64(int64(v.(float64)))), false
+					switch x := v.(type) {
+					case float64:
+						return w.tc.BV(64, uint64(int64(x))), false
+					case int:
+						return w.tc.BV(64, uint64(int64(x))), false
+					}
 				}
 			}
 			k := w.decide(s, n, "choose", name)
@@ -272,6 +288,32 @@ func init() {
 		"Symbolic": func(w *Worker, s *State, f *Frame, fn *ssa.Function, a []Value, d int) (Value, bool) {
 			return w.tc.True, false
 		},
+		"Implies": func(w *Worker, s *State, f *Frame, fn *ssa.Function, a []Value, d int) (Value, bool) {
+			return w.tc.Implies(w.term(a[0]), w.term(a[1])), false
+		},
+		"And": func(w *Worker, s *State, f *Frame, fn *ssa.Function, a []Value, d int) (Value, bool) {
+			var ts []*Term
+			for _, v := range sliceElemsOrNil(a[0]) {
+				ts = append(ts, w.term(v))
+			}
+			return w.tc.And(ts...), false
+		},
+		"Or": func(w *Worker, s *State, f *Frame, fn *ssa.Function, a []Value, d int) (Value, bool) {
+			var ts []*Term
+			for _, v := range sliceElemsOrNil(a[0]) {
+				ts = append(ts, w.term(v))
+			}
+			return w.tc.Or(ts...), false
+		},
+		"IfInt64": func(w *Worker, s *State, f *Frame, fn *ssa.Function, a []Value, d int) (Value, bool) {
+			return w.tc.Ite(w.term(a[0]), w.term(a[1]), w.term(a[2])), false
+		},
+		"IfInt32": func(w *Worker, s *State, f *Frame, fn *ssa.Function, a []Value, d int) (Value, bool) {
+			return w.tc.Ite(w.term(a[0]), w.term(a[1]), w.term(a[2])), false
+		},
+		"Prop": func(w *Worker, s *State, f *Frame, fn *ssa.Function, a []Value, d int) (Value, bool) {
+			return w.tc.Bool(len(w.cfg.Props) == 0 || w.cfg.Props[w.concStr(a[0], "property id")]), false
+		},
 		"Known": func(w *Worker, s *State, f *Frame, fn *ssa.Function, a []Value, d int) (Value, bool) {
 			return w.tc.Bool(w.cfg.KnownIDs[w.concStr(a[0], "finding id")]), false
 		},
@@ -280,12 +322,38 @@ func init() {
 			return w.eqValues(x, y), false
 		},
 		"Swr": func(w *Worker, s *State, f *Frame, fn *ssa.Function, a []Value, d int) (Value, bool) {
-			// uninterpreted summary of seriesWithRate(series, rate) for a concrete rate
+			// summary of seriesWithRate(series, rate) = int64(float64(series) * rate) for a concrete
+			// rate: identity for 1, zero for 0, otherwise an uninterpreted function with the bounds
+			// proved by the VLemmaSwr obligations (for 0 <= series <= 2^40)
 			rate := w.term(a[1])
+			x := w.term(a[0])
 			if !rate.Const {
 				panic(unsupported{"Swr with symbolic rate"})
 			}
-			return w.tc.UF("swr_"+strconv.FormatFloat(rate.F, 'g', -1, 64), bv(64), w.term(a[0])), false
+			exact := w.tc.FPToInt(w.tc.FPBin("fp.mul", w.tc.IntToFP(x, true), rate), 64, true)
+			if x.Const || w.cfg.concrete != nil || w.cfg.ExactSwr {
+				return exact, false
+			}
+			tc := w.tc
+			if rate.F == 1 {
+				return x, false
+			}
+			if rate.F == 0 {
+				return tc.BV(64, 0), false
+			}
+			q := tc.UF("swr_"+strconv.FormatFloat(rate.F, 'g', -1, 64), bv(64), x)
+			inRange := tc.And(tc.Cmp("bvsle", tc.BV(64, 0), x), tc.Cmp("bvsle", x, tc.BV(64, 1<<40)))
+			var lem *Term
+			if rate.F > 1 && rate.F <= 2 {
+				lem = tc.Implies(inRange, tc.And(tc.Cmp("bvsle", x, q), tc.Cmp("bvsle", q, tc.Add(x, x))))
+			} else if rate.F > 0 && rate.F < 1 {
+				lem = tc.Implies(inRange, tc.And(tc.Cmp("bvsle", tc.BV(64, 0), q), tc.Cmp("bvsle", q, x)))
+			} else {
+				panic(unsupported{"Swr rate outside (0,2]"})
+			}
+			s.pc = s.pc.push(lem)
+			s.abst = &absRec{uf: q, exact: exact, prev: s.abst}
+			return q, false
 		},
 	}
 
